@@ -102,7 +102,12 @@ impl TorrentMaps {
         let mut statistics_messages = Vec::new();
         let mut opt_scrape_export_writer = if export_full_scrape {
             match File::create(config.scrape_exports.tmp_path()) {
-                Ok(file) => Some(BufWriter::new(file)),
+                Ok(file) => {
+                    #[cfg(aquatic_verif)]
+                    aquatic_common::verif::probe("export_created", 0);
+
+                    Some(BufWriter::new(file))
+                }
                 Err(err) => {
                     ::log::error!(
                         "Could not create temporary scrape export file at path {}: {:?}",
@@ -155,7 +160,12 @@ impl TorrentMaps {
         }
 
         if let Some(mut w) = opt_scrape_export_writer.take() {
-            if let Err(err) = w.flush() {
+            let flush_result = w.flush();
+
+            #[cfg(aquatic_verif)]
+            aquatic_common::verif::probe("export_flushed", 0);
+
+            if let Err(err) = flush_result {
                 ::log::error!(
                     "Could not flush writes to temporary scrape export file at path {}: {:?}",
                     config.scrape_exports.tmp_path().to_string_lossy(),
@@ -163,6 +173,9 @@ impl TorrentMaps {
                 );
             } else {
                 drop(w);
+
+                #[cfg(aquatic_verif)]
+                aquatic_common::verif::probe("export_closed", 0);
 
                 if let Err(err) = ::std::fs::rename(
                     config.scrape_exports.tmp_path(),
@@ -174,6 +187,9 @@ impl TorrentMaps {
                         err
                     );
                 }
+
+                #[cfg(aquatic_verif)]
+                aquatic_common::verif::probe("export_renamed", 0);
             }
         }
     }
@@ -223,6 +239,9 @@ impl<I: Ip> TorrentMapShards<I> {
             }
         };
 
+        #[cfg(aquatic_verif)]
+        aquatic_common::verif::probe("udp_announce_before_cell_lock", request.info_hash.0[0] as u64);
+
         let mut peer_map = peer_map.write();
 
         peer_map.announce(
@@ -255,6 +274,9 @@ impl<I: Ip> TorrentMapShards<I> {
             };
 
             response.torrent_stats.push(statistics);
+
+            #[cfg(aquatic_verif)]
+            aquatic_common::verif::probe("udp_scrape_after_hash", info_hash.0[0] as u64);
         }
 
         response
@@ -289,6 +311,11 @@ impl<I: Ip> TorrentMapShards<I> {
                 .map(|(info_hash, peers)| (*info_hash, peers.clone()))
                 .collect::<Vec<_>>();
 
+            #[cfg(aquatic_verif)]
+            if !torrent_references.is_empty() {
+                aquatic_common::verif::probe("udp_clean_after_snapshot", torrent_references[0].0 .0[0] as u64);
+            }
+
             for (info_hash, peer_map) in torrent_references {
                 let mut peer_map = peer_map.write();
 
@@ -313,6 +340,9 @@ impl<I: Ip> TorrentMapShards<I> {
 
                 // Allow other threads to access the peer map again
                 drop(peer_map);
+
+                #[cfg(aquatic_verif)]
+                aquatic_common::verif::probe("udp_clean_after_torrent", info_hash.0[0] as u64);
 
                 let num_peers = num_seeders + num_leechers;
 
@@ -339,6 +369,9 @@ impl<I: Ip> TorrentMapShards<I> {
                                 err
                             );
                         }
+
+                        #[cfg(aquatic_verif)]
+                        aquatic_common::verif::probe("export_line", info_hash.0[0] as u64);
                     }
                 }
 
@@ -348,6 +381,9 @@ impl<I: Ip> TorrentMapShards<I> {
 
         // Now, remove torrents that are forbidden by the access list or which
         // have no peers. This unavoidably locks a whole shard at a time.
+        #[cfg(aquatic_verif)]
+        aquatic_common::verif::probe("udp_clean_between_phases", 0);
+
         for torrent_map_shard in self.0.iter() {
             let mut torrent_map_shard = torrent_map_shard.write();
 
